@@ -172,6 +172,13 @@ class ExternalVariableCollector(NodeVisitor):
         self.funcnames.add(node.name)
         self.generic_visit(node)
 
+    def visit_ClassDef(self, node):
+        # The class statement binds its name; its body is a scope of its own
+        self.provenance[node.name] = "body"
+        self.assigned.add(node.name)
+        for sub in [*node.bases, *node.keywords, *node.decorator_list]:
+            self.visit(sub)
+
     def visit_Name(self, node):
         if isinstance(node.ctx, ast.Load):
             self.used.add(node.id)
@@ -606,6 +613,14 @@ class PteraTransformer(NodeTransformer):
             ),
             node,
         )
+
+    def visit_ClassDef(self, node):
+        # The body of a class is a scope of its own: its assignments are not
+        # variables of the function (and ptera's names would be mangled)
+        name_node = ast.copy_location(
+            ast.Name(id=node.name, ctx=ast.Store()), node
+        )
+        return [node, *self.generate_interactions(name_node)]
 
     def visit_For(self, node):
         new_body = self.generate_interactions(node.target)
